@@ -419,7 +419,7 @@ theorem pi_unpauseRequest (s : State) (id : Id) (ext : Bool) (hp : s.park = none
     · exact sop_same rfl
     · simp only
       split
-      · generalize h : execTx (setState s id RState.queued) Party.mgr _ id [TxOp.ext] = pr
+      · generalize h : execTx (setState _ id RState.queued) Party.mgr _ id [TxOp.ext] = pr
         obtain ⟨s2, ok⟩ := pr
         have h1 : pi s2 = pi s := by
           have := pi_execTx_eq h
